@@ -273,4 +273,22 @@ def mpDecide (stepNames : List (Name × Name)) (σ : List (Name × Option Name))
       | some (some x) => x
       | _ => p.2)), lazy)
 
+/-! ### Constant as an executable model (constant.py) -/
+
+/-- `Constant(const_inputs, arg)`: constant with respect to `consts`; its value is `arg`'s. -/
+structure ConstT where
+  consts : Inputs
+  arg : Term
+
+def ConstT.meaning (c : ConstT) (env : Env) : Option Sem := denote c.arg env
+
+/-- `Constant.eager_subs` (keys of the substitution are const inputs — the class's fresh names): the new const inputs
+    by `constSubs`; the code returns `self.arg` itself when none is left (same meaning: `consts = []`). -/
+def constEagerSubs (c : ConstT) (argIns : Inputs) (valueIns : Name → Option Inputs) : ConstT :=
+  ⟨constSubs c.consts argIns valueIns, c.arg⟩
+
+/-- The inputs of a Constant: const inputs first, then the argument's. -/
+def ConstT.inputNames (c : ConstT) (argIns : Inputs) : List Name :=
+  names c.consts ++ (names argIns).filter (fun n => decide (n ∉ names c.consts))
+
 end FV.C04
